@@ -165,6 +165,26 @@ func ruleTSMult(c *Ctx) {
 		if mv != nil {
 			m, okM = (Folder{P}).FoldInt(mv)
 		}
+		if mv != nil && !okM {
+			// the multiplier is computed by a pure helper from the logical type: tabulate it
+			if tab, okT := multTable(P, mv, b.Schema); okT {
+				for _, name := range []string{"(none)", "timestamp-micros", "timestamp-millis", "(other)"} {
+					want, has := specTimeUnits[name]
+					if !has {
+						want = 1
+					}
+					got, okG := tab[name]
+					key := fmt.Sprintf("%s/mult[%s]", fnKey(b.Fn), name)
+					if _, dup := seen[key]; dup {
+						continue
+					}
+					seen[key] = got
+					mults[got] = true
+					c.Check(okG && got == want, key, P.pos(p.Ret.Pos()), fmt.Sprintf("logical type %s -> %d ns per unit (tabulated from the helper that computes it)", name, got), fmt.Sprintf("logical type %s gets multiplier %d, the specification's unit is %d ns", name, got, want))
+				}
+				continue
+			}
+		}
 		name, exact, _ := p.State.strOf(lt)
 		if !exact {
 			name = "(none)"
@@ -278,4 +298,151 @@ func ruleTSMult(c *Ctx) {
 	if n == 0 {
 		c.Bad("time.LongCodec/Write-unit", P.pos(wr.Pos()), "no write path found")
 	}
+}
+
+// multTable tabulates mv = f(arg) for the logical types of interest, where f
+// is a pure module function from a string to an integer and arg is either
+// the schema's logical type itself or g(schema) for a pure module function g
+// returning it (or "" when the schema has no object part).
+func multTable(P *Program, mv ssa.Value, schema *ssa.Parameter) (map[string]int64, bool) {
+	call, ok := stripConv(mv).(*ssa.Call)
+	if !ok || call.Call.StaticCallee() == nil || len(call.Call.Args) != 1 {
+		return nil, false
+	}
+	f := call.Call.StaticCallee()
+	if !P.isModuleFunc(f) || !pureValueHelper(f) {
+		return nil, false
+	}
+	out := map[string]int64{}
+	for name, s := range map[string]string{"(none)": "", "timestamp-micros": "timestamp-micros", "timestamp-millis": "timestamp-millis", "(other)": "x-some-other-logical-type"} {
+		arg := call.Call.Args[0]
+		sv := s
+		if g, isCall := arg.(*ssa.Call); isCall {
+			gf := g.Call.StaticCallee()
+			if gf == nil || !P.isModuleFunc(gf) || !pureValueHelper(gf) || len(g.Call.Args) != 1 || stripLoadOfParam(g.Call.Args[0]) != ssa.Value(schema) {
+				return nil, false
+			}
+			v, okS := evalStringOfSchema(gf, name == "(none)", s)
+			if !okS {
+				return nil, false
+			}
+			sv = v
+		} else if !strings.HasSuffix(accessPath(arg), "->Object)->LogicalType)") {
+			return nil, false
+		}
+		k, okK := evalIntOfString(P, f, sv)
+		if !okK {
+			return nil, false
+		}
+		out[name] = k
+	}
+	return out, true
+}
+
+// pureValueHelper: no stores, no calls other than builtins.
+func pureValueHelper(fn *ssa.Function) bool {
+	if fn == nil || fn.Blocks == nil || len(fn.Blocks) > 40 {
+		return false
+	}
+	for _, b := range fn.Blocks {
+		for _, in := range b.Instrs {
+			switch x := in.(type) {
+			case *ssa.MapUpdate, *ssa.Send, *ssa.Go, *ssa.Defer, *ssa.Panic:
+				return false
+			case *ssa.Store:
+				// spilling a by-value parameter to its own local is not an effect
+				if a, ok := x.Addr.(*ssa.Alloc); ok && !a.Heap {
+					if _, isP := x.Val.(*ssa.Parameter); isP {
+						continue
+					}
+				}
+				return false
+			case *ssa.Call:
+				if _, isB := x.Call.Value.(*ssa.Builtin); !isB {
+					return false
+				}
+			}
+		}
+	}
+	return true
+}
+
+// evalIntOfString: the constant f returns on every path consistent with its
+// string parameter being val.
+func evalIntOfString(P *Program, f *ssa.Function, val string) (int64, bool) {
+	paths, ok := enumeratePaths(f)
+	if !ok || len(f.Params) != 1 {
+		return 0, false
+	}
+	pp := f.Params[0].Name()
+	var res int64
+	n := 0
+	for _, p := range paths {
+		if p.Ret == nil {
+			return 0, false
+		}
+		v, exact, ex := p.State.strOf(pp)
+		if exact && v != val || !exact && contains(ex, val) {
+			continue
+		}
+		rv := resolvedResults(p.Ret)[0]
+		if phi, isPhi := rv.(*ssa.Phi); isPhi {
+			rv = phiValueOnPath(phi, p.Blocks)
+		}
+		k, okK := (Folder{P}).FoldInt(rv)
+		if !okK || n > 0 && k != res {
+			return 0, false
+		}
+		res = k
+		n++
+	}
+	return res, n > 0
+}
+
+// evalStringOfSchema: what g(schema) returns when the schema has no object
+// part (objNil) or has one whose logical type is lt.
+func evalStringOfSchema(g *ssa.Function, objNil bool, lt string) (string, bool) {
+	paths, ok := enumeratePaths(g)
+	if !ok || len(g.Params) != 1 {
+		return "", false
+	}
+	res, n := "", 0
+	for _, p := range paths {
+		if p.Ret == nil {
+			return "", false
+		}
+		// the path's belief about schema.Object
+		consistent := true
+		for k, v := range p.State.eq {
+			if strings.HasSuffix(k, "->Object)") && (v == "nil") != objNil {
+				consistent = false
+			}
+		}
+		for k, m := range p.State.ne {
+			if strings.HasSuffix(k, "->Object)") && m["nil"] && objNil {
+				consistent = false
+			}
+		}
+		if !consistent {
+			continue
+		}
+		rv := resolvedResults(p.Ret)[0]
+		if phi, isPhi := rv.(*ssa.Phi); isPhi {
+			rv = phiValueOnPath(phi, p.Blocks)
+		}
+		var got string
+		if cs, isS := constString(rv); isS {
+			got = cs
+		} else if strings.HasSuffix(accessPath(rv), "->Object)->LogicalType)") && !objNil {
+			got = lt
+		} else {
+			return "", false
+		}
+		if n > 0 && got != res {
+			return "", false
+		}
+		res = got
+		n++
+	}
+	return res, n > 0
 }
